@@ -167,6 +167,7 @@ func ReleaseMacroNode(node *MacroNode) {
 	node.defaults = nil
 	node.body = nil
 	node.siblings = nil
+	node.imports = nil
 	MacroNodePool.Put(node)
 }
 
